@@ -39,6 +39,24 @@ CHECKS = {
         'handler call returned False; exhausted over all combinations within the scenario.',
    design_ref='DESIGN.md par.5 C07',
    note='model filesystem; <=3 directories; handler policies by call position'),
+ 'C10': dict(
+   text='Loader operation sequences (verify+lookups; update without save; update+save; failing '
+        'update) on a model tree with a complete write log: nothing is logged before save or '
+        'by read-only operations, only Manifest paths are written, data nodes keep identity and '
+        'attributes, DIST/IGNORE/TIMESTAMP multisets and entry types are preserved, and entries '
+        'outside the updated directory stay untouched except MANIFEST entries on the chain.',
+   design_ref='DESIGN.md par.5 C10',
+   note='model filesystem: every mutation goes through logged seams; one scenario skeleton '
+        '(S-own) with symbolic file attributes; sequences of at most init+op(+save)'),
+ 'C12': dict(
+   text='(a) update+save twice on the C03 model scenarios: the second round logs no write and '
+        'leaves every Manifest node unchanged; (b) two replicas differing only in walk order and '
+        'prior entry order give identical written entry sequences under sort=True; (c) the real '
+        'dump(sort=True) renders identical text for all 24 orders of 4 entries; gzip header '
+        'parameters pinned.',
+   design_ref='DESIGN.md par.5 C12',
+   note='model filesystem; 3 names per directory; codecs deterministic given equal header '
+        'parameters; F1 region of C03 excluded by construction'),
 }
 
 NOT_APPLICABLE = {
